@@ -465,6 +465,8 @@ fn try_get_token_a_from_liquidity(
     let sqrt_price_diff = sqrt_price_upper - sqrt_price_lower;
     let numerator: U256 = <U256>::from(liquidity_delta)
         .checked_mul(sqrt_price_diff.into())
+        // `checked_shl` only fails for shift amounts >= 256: reject products whose top 64 bits would be shifted out
+        .filter(|product| product.leading_zeros() >= 64)
         .ok_or(ARITHMETIC_OVERFLOW)?
         .checked_shl(64)
         .ok_or(ARITHMETIC_OVERFLOW)?;
